@@ -332,6 +332,15 @@ def loader_cases(draw):
 
 
 @st.composite
+def single_template_cases(draw):
+    """one-element template lists through the multi-template entry points: the label must be 0 whatever rotation wins"""
+    d = draw(c01_pose.cases(("multi",), force_T=1))
+    d["route"] = draw(st.sampled_from(["multi", "group-list", "group-mapping", "group-list"]))
+    d["label_name"] = draw(st.sampled_from(["labels", "tmpl-id"]))
+    return d
+
+
+@st.composite
 def many_candidate_cases(draw):
     """T = 3 templates x 125 rotations = 375 candidates (> 256: flat indices do not fit 8 bits)."""
     d = draw(c01_pose.cases(("multi",), force_T=3, force_rots={"kind": "iso", "max": 50.0, "step": 25.0}, nmax=2))
@@ -388,6 +397,8 @@ def engines():
         Engine("loader", judge_loader, strategy=loader_cases(), nontrivial=c01_pose.nontrivial, labels=labels_loader,
                cases={"quick": 40, "thorough": 800}, shards={"quick": 4, "thorough": 16},
                shrink={"quick": False, "thorough": True}),
+        Engine("loader-single-template", judge_loader, strategy=single_template_cases(), nontrivial=c01_pose.nontrivial, labels=labels_loader,
+               cases={"quick": 24, "thorough": 400}, shards={"quick": 8, "thorough": 16}, shrink={"quick": False, "thorough": True}),
         Engine("loader-many-candidates", judge_loader, strategy=many_candidate_cases(), nontrivial=c01_pose.nontrivial, labels=labels_loader,
                cases={"quick": 12, "thorough": 96}, shards={"quick": 4, "thorough": 12}, shrink={"quick": False, "thorough": False}),
         Engine("grid", judge_grid, strategy=grid_cases(), labels=lambda d: [f"form:{d['form']}"],
